@@ -13,6 +13,9 @@ model's fragment):
                `engines-differ`     interpreter observation ≠ VM observation
   copysem      `copy-aliased`       the dump of the untouched side differs before / after the mutations
   resown       `moved-resource-still-usable`, `uuid-twice`, `resource-lost`, `resource-duplicated`, … (see `resCensus`)
+               directed multi-account family (`gen=multiacct`): `destroy-event-count-wrong`,
+               `directed-scenario-failed` (see `multiCensus`; judged against the expected event multiset
+               carried in the op line, no model run)
   refinv       `stale-reference-usable`, `valid-reference-unusable`  (see `refOracle`)
                programs of the families outside the model's fragment (attachments, `for` over a reference
                to an array of references) that pass these oracles answer `OK … oracle-only` (judged
@@ -182,6 +185,44 @@ def streamOracle (stream : String) (op : List String) (o : Obs) (engine : String
   | "refinv" => refOracle op o engine
   | _ => none
 
+/-- C02, directed multi-account family (`gen=multiacct`, see harness/internal/lang2/multi.go): the op line
+    carries the expected multiset of destruction events (`expect=`, full type ids: one event per destroyed
+    resource and declared `ResourceDestroyed` — own + each inherited); an engine's run must complete and
+    emit exactly these.  Independent of the model (contracts / interfaces are outside its fragment). -/
+def multiCensus (op : List String) (o : Obs) (engine : String) : Option Verdict :=
+  let label := (op.drop 1).headD "?"
+  let expect := ((field op "expect").splitOn ";").filter (· ≠ "")
+  if o.out != "ok" then
+    some (.violation "directed-scenario-failed" ("scenario " ++ label ++ " completes (" ++ engine ++ "): " ++ o.out) [])
+  else
+    match expect.find? (fun e => countOf e o.events != countOf e expect) with
+    | some e =>
+      some (.violation "destroy-event-count-wrong"
+        ("scenario " ++ label ++ ": " ++ e ++ " emitted exactly " ++ toString (countOf e expect) ++ " time(s), got " ++
+          toString (countOf e o.events) ++ " (" ++ engine ++ ")") [])
+    | none =>
+      match o.events.find? (fun e => !expect.contains e) with
+      | some e =>
+        some (.violation "destroy-event-count-wrong"
+          ("scenario " ++ label ++ ": no event beside the declared destruction events of the destroyed resources, got " ++ e ++
+            " (" ++ engine ++ ")") [])
+      | none => none
+
+def judgeMulti (op : List String) (i v : Obs) (tags0 : List String) : Verdict :=
+  match multiCensus op i "interp" with
+  | some verdict => verdict
+  | none =>
+    -- known finding (VM only): a destruction event inherited through an interface of a contract that the
+    -- resource's contract does not import itself
+    if tags0.contains "shape-chain" && v.out.startsWith "internal:" then
+      .violation "vm-inherited-destroy-event-of-unimported-contract" "no internal error for a checker-accepted program (vm)" tags0
+    else if isBad v.out then
+      .violation "go-internal-error" ("no internal error / crash for a checker-accepted program; vm=" ++ v.out) tags0
+    else
+      match multiCensus op v "vm" with
+      | some verdict => verdict
+      | none => .ok ("!nt" :: "oracle-only" :: ("events-" ++ toString i.events.length) :: tags0)
+
 def judge (op : List String) (go : String) : Verdict :=
   let stream := op.headD ""
   match go.splitOn " @@ " with
@@ -190,6 +231,7 @@ def judge (op : List String) (go : String) : Verdict :=
     let tags0 := (if gen.isEmpty then [] else ["gen-" ++ gen]) ++ ((field op "forms").splitOn ",").filter (· ≠ "")
     let i := parseObs oi
     let v := parseObs ov
+    if gen == "multiacct" then judgeMulti op i v tags0 else
     if sx.startsWith "reject:" then .skip "rejected-by-checker" else
     let prog := if sx.startsWith "oof:" then none else readProgram sx
     -- direct oracles
